@@ -72,6 +72,8 @@ def sys_oracles(scn):
     for name in scn.get("oracles", []):
         if name == "stats":
             out.append(so.StatsOracle())
+        elif name == "uncontended":
+            out.append(so.UncontendedOracle())
         elif name == "policy":
             if algo in ("priority", "priority-pool"):
                 out.append(so.PriorityOracle(algo))
